@@ -359,8 +359,17 @@ func tokenOf(pay string) string {
 }
 
 // release sends held response j (HoldAcks mode).
-func (b *Broker) release(j int) {
+func (b *Broker) release(j int, conn int) {
 	b.mu.Lock()
+	if j < 0 {
+		// oldest unreleased response held for connection conn
+		for i := range b.held {
+			if !b.held[i].released && b.held[i].c.k == conn {
+				j = i
+				break
+			}
+		}
+	}
 	if j < 0 || j >= len(b.held) || b.held[j].released {
 		b.mu.Unlock()
 		b.s.probe("release-noop")
@@ -388,7 +397,7 @@ func (s *Sim) runScript(i int) {
 		raw, _ := hex.DecodeString(o.RawHex)
 		c.send(nil, raw, o.Class, 0, o.Frag, o.EOFAfter)
 	case "release":
-		s.broker.release(o.Held)
+		s.broker.release(o.Held, o.Conn)
 	case "cut":
 		c.cut(false, "script")
 	}
